@@ -61,7 +61,7 @@ Feats == [dup : BOOLEAN, move : BOOLEAN, multi : BOOLEAN, nested : BOOLEAN]
 B(id, name, cls, parent, initial) ==
   [id |-> id, qid |-> id, name |-> name, cls |-> cls, parent |-> parent, priv |-> "PUBLIC", incontents |-> TRUE, inall |-> TRUE,
    bases |-> <<>>, mro |-> IF cls = "Class" THEN <<id>> ELSE <<>>, subclasses |-> {}, doc |-> TRUE, docsrc |-> id,
-   module |-> "auto", xrefs |-> {}, sumrefs |-> {}, annrefs |-> {}, sigrefs |-> {}, initial |-> initial, dupname |-> FALSE, dupfull |-> FALSE]
+   module |-> "auto", locals |-> {}, xrefs |-> {}, sumrefs |-> {}, annrefs |-> {}, sigrefs |-> {}, initial |-> initial, dupname |-> FALSE, dupfull |-> FALSE]
 
 SkelObjs(f) ==
   {  B("pk", "pk", "Package", None, "P"),
@@ -85,7 +85,11 @@ SkelObjs(f) ==
      \* two modules importing each other: pk/cyca.py starts with "from pk.cycb import Impl", so while cycb is analysed
      \* its "from pk.cyca import CBase" finds nothing yet and the base of Impl is resolved only in post-processing
      \* (model.py defaultPostProcess: _init_mro, then subclasses).  keep is inherited over two levels.
-     B("pk.cyca", "cyca", "Module", "pk", "C"),
+     \* the docstring of pk.cyca is reStructuredText with targets INSIDE the docstring that its own text refers to: a
+     \* section "Other notes" (docutils id other-notes), a section "RST markup" and an explicit target "rst-cheatsheet",
+     \* whose ids already start with the prefix node2stan gives to every id of a docstring
+     [B("pk.cyca", "cyca", "Module", "pk", "C") EXCEPT
+          !.locals = {[id |-> "other-notes", pre |-> FALSE], [id |-> "rst-markup", pre |-> TRUE], [id |-> "rst-cheatsheet", pre |-> TRUE]}],
      [B("pk.cyca.CBase", "CBase", "Class", "pk.cyca", "C") EXCEPT !.subclasses = {"pk.cycb.Impl"}],
      B("pk.cyca.CBase.run", "run", "Function", "pk.cyca.CBase", "R"),
      B("pk.cyca.CBase.keep", "keep", "Function", "pk.cyca.CBase", "K"),
@@ -139,7 +143,7 @@ Alt(v) == CASE v = "pk" -> {"PRIVATE"}
             [] v = "pk._impl" -> {"PUBLIC", "HIDDEN"}
             [] OTHER -> {"PRIVATE", "HIDDEN"}
 Varied(f) == {"pk", "pk.mod", "pk.mod.Base", "pk.mod.Base.meth", "pk.mod.Base.attr", "pk.mod.Hid", "pk.mod.Hid.hm",
-              "pk.mod.Sub", "pk.mod.func", "pk.cyca.CBase.keep", "pk.cycb.Impl", "pk.cycb.Impl.run"}
+              "pk.mod.Sub", "pk.mod.func", "pk.cyca.CBase.keep", "pk.cyca.CBase.side", "pk.cycb.Impl", "pk.cycb.Impl.run"}
              \cup (IF f.nested THEN {"pk.mod.Sub.Inner"} ELSE {})
              \cup (IF f.dup THEN {"pk.mod.Dup"} ELSE {})
              \cup (IF f.move THEN {"pk._impl", "pk.Moved"} ELSE {})
@@ -157,7 +161,7 @@ Skeleton(f, assign, d) ==
 (***************************************************************************)
 Norm(o) == [id |-> o.id, qid |-> o.qid, name |-> o.name, cls |-> o.cls, parent |-> o.parent, priv |-> o.priv,
             incontents |-> o.incontents, inall |-> o.inall, bases |-> o.bases, mro |-> o.mro, subclasses |-> Range(o.subclasses),
-            doc |-> o.doc, docsrc |-> o.docsrc, module |-> o.module, xrefs |-> {}, sumrefs |-> {}, annrefs |-> {}, sigrefs |-> {},
+            doc |-> o.doc, docsrc |-> o.docsrc, module |-> o.module, locals |-> {}, xrefs |-> {}, sumrefs |-> {}, annrefs |-> {}, sigrefs |-> {},
             initial |-> o.initial, dupname |-> o.dupname, dupfull |-> o.dupfull]
 FromProjection(c) == [objs |-> [i \in DOMAIN c.objs |-> Norm(c.objs[i])], roots |-> c.roots, depth |-> c.depth]
 
@@ -277,7 +281,11 @@ InHierarchy(p, pf) == IF IsCls(p) THEN {L(pf, [file |-> "classIndex", frag |-> p
 \* page is the source's page; it is rendered on page pf (deviation when the docstring is inherited)
 \* (with the fix of inherited-docstring-samepage-link: full urls when source and object live on different pages)
 DocCtx(c) == IF Fx("inherited-docstring-samepage-link") /\ PageOf(Objs[c].docsrc) # PageOf(c) THEN "" ELSE FileOf(Objs[c].docsrc)
+\* node2stan.py HTMLTranslator.starttag: every id and every local href of a docstring gets the prefix "rst-", unless it
+\* already starts with it - the SAME rule for the anchor and for the reference, so they keep pointing to each other
+LocalId(t) == IF t.pre THEN t.id ELSE "rst-" \o t.id
 Docstring(p, pf) == {L(pf, TagLink(t, DocCtx(p), pf), "docstring") : t \in Linkable(Objs[p].xrefs)}
+                    \cup {L(pf, [file |-> pf, frag |-> LocalId(t)], "docstring") : t \in Objs[p].locals}
 MemberDoc(p, pf) == UNION {{LM(pf, TagLink(t, DocCtx(c), pf), "memberDoc", c) : t \in Linkable(Objs[c].xrefs)} : c \in Methods(p)}
 \* epydoc2stan.py:814 format_summary: switch_context(None) -> always full urls
 SummaryRefs(pg, S) == UNION {{L(pg, Url(t), "summaryDoc") : t \in Linkable(Objs[c].sumrefs)} : c \in S}
@@ -368,7 +376,10 @@ AnchorsOf(pg) ==                                            \* <a name=...> anch
 
 Pred ==
   [files   |-> HtmlFiles,
-   anchors |-> [pg \in HtmlFiles |-> IF SingleRoot /\ pg = Roots[1] THEN AnchorsOf("index") ELSE AnchorsOf(pg)],
+   nameanchors |-> [pg \in HtmlFiles |-> IF SingleRoot /\ pg = Roots[1] THEN AnchorsOf("index") ELSE AnchorsOf(pg)],
+   \* + the ids of the targets inside the docstrings shown on the page (id= attributes)
+   anchors |-> [pg \in HtmlFiles |-> LET pg2 == IF SingleRoot /\ pg = Roots[1] THEN "index" ELSE pg IN
+                                     AnchorsOf(pg2) \cup UNION {{LocalId(t) : t \in Objs[p].locals} : p \in {p \in ObjPages : Written(p) = pg2}}],
    links   |-> UNION {ObjPageLinks(p) : p \in ObjPages} \cup ModuleIndexLinks \cup ClassIndexLinks \cup NameIndexLinks
                \cup UndoccedLinks \cup IndexLinks \cup AllDocsLinks
                \cup UNION {Nav(pg) : pg \in SummaryFiles \cup (IF Multi THEN {"index"} ELSE {})},
@@ -406,6 +417,7 @@ VisibleMemberHasAnchor(O, S) == NoAnchor(O, S) = {}
 
 \* C12
 MarkedKinds == {"table", "detail", "sidebar", "moduleIndex", "nameIndex"}    \* + search documents (docs.privacy)
+CoreKinds == {"table", "detail", "sidebar", "moduleIndex"}     \* listings whose marker depends on the object alone
 HiddenSet(O)  == {i \in DOMAIN O : HiddenIn(O, i)}
 VisibleUrls(O) == {<<O[i].file, O[i].frag>> : i \in {i \in DOMAIN O : ~HiddenIn(O, i)}}
 \* addresses that belong to hidden objects only (a superseding visible definition owns its address)
@@ -435,7 +447,15 @@ Excused(O, c, seen) == \E x \in O[c].subs \ seen : (~HiddenIn(O, x) /\ ~PrivCtxI
 ClassNodeUrls(O) == {<<O[i].file, O[i].frag>> : i \in {i \in DOMAIN O : ~HiddenIn(O, i) /\ O[i].priv = "PRIVATE" /\ ~Excused(O, i, {i})}}
 PrivUrls(O) == {<<O[i].file, O[i].frag>> : i \in {i \in DOMAIN O : ~HiddenIn(O, i) /\ O[i].priv = "PRIVATE"}}
 Unmarked(O, S) ==
-  LET pu == PrivUrls(O)  cu == ClassNodeUrls(O) IN
+  LET pu == PrivUrls(O)  cu == ClassNodeUrls(O)
+      \* whatever privacy the System gives an object, its listings must tell the same story: an address that carries the
+      \* marker in one of the listings named by the statement must carry it in all of them and in its search document
+      marked == {<<e.file, e.frag>> : e \in {e \in S.entries : e.kind \in CoreKinds /\ e.private}}
+  IN  {[page |-> e.page, kind |-> e.kind, file |-> e.file, frag |-> e.frag] :
+          e \in {e \in S.entries : e.kind \in CoreKinds /\ ~e.private /\ <<e.file, e.frag>> \in marked}}
+ \cup {[page |-> "all-documents", kind |-> "searchDoc", file |-> d.file, frag |-> d.frag] :
+          d \in {d \in S.docs : d.privacy # "PRIVATE" /\ <<d.file, d.frag>> \in marked}}
+ \cup
       {[page |-> e.page, kind |-> e.kind, file |-> e.file, frag |-> e.frag] :
           e \in {e \in S.entries : ~e.private /\ (\/ (e.kind \in MarkedKinds /\ <<e.file, e.frag>> \in pu)
                                                   \/ (e.kind = "classIndex" /\ <<e.file, e.frag>> \in cu))}}
@@ -477,6 +497,13 @@ KF_HiddenRootListed(O, l) == l.prod \in {"moduleIndex", "indexRoots"} /\ \E r \i
 \* the docstring was rendered; sidebar.py rebuilds the ToC (fresh ids) for every ObjContent, also on other pages
 KF_TocBackrefStale(l) == l.prod = "tocBackref" /\ l.file = l.page /\ l.frag # ""
 
+\* docutils writes the link from a footnote back to its reference(s) directly (footnote_backrefs), not through starttag():
+\* "#footnote-reference-1" while the id of the reference is "rst-footnote-reference-1"
+KF_FootnoteBackref(l) == l.prod = "fnBackref" /\ l.file = l.page /\ l.frag # ""
+\* a reference to a target inside the docstring, standing in the summary paragraph, is copied as "#rst-x" with the summary
+\* into the tables and indexes of OTHER pages, where that anchor does not exist
+KF_SummaryLocalRef(l) == l.prod = "summaryLocalRef" /\ l.file = l.page /\ l.frag # ""
+
 \* the title of the second sidebar section names the HIDDEN module a nested class was defined in before its enclosing
 \* class was re-exported
 KF_SidebarTitleHidden(O, multi, l) == l.prod = "sidebarTitle" /\ Targets(O, multi, l.file, l.frag)
@@ -493,6 +520,8 @@ KfLink(O, S, multi, l) == IF KF_EncodedFilename(S, l.file) THEN "percent-encoded
                           ELSE IF KF_OverridesNoteHidden(O, multi, l) THEN "overrides-note-names-hidden-member"
                           ELSE IF KF_SidebarTitleHidden(O, multi, l) THEN "sidebar-names-hidden-origin-module"
                           ELSE IF KF_TocBackrefStale(l) THEN "toc-backref-stale-id"
+                          ELSE IF KF_FootnoteBackref(l) THEN "footnote-backref-unprefixed"
+                          ELSE IF KF_SummaryLocalRef(l) THEN "summary-local-reference-copied"
                           ELSE IF KF_SupersededListed(O, l) THEN "superseded-duplicate-listed"
                           ELSE IF KF_InheritedDocLink(O, l) THEN "inherited-docstring-samepage-link"
                           ELSE IF KF_LinkToHidden(O, multi, l) THEN "link-to-hidden-object"
@@ -578,7 +607,7 @@ Diff(S) ==
       oe == {e \in S.entries : e.kind \in Modelled}    pe == {e \in P.entries : e.kind \in Modelled}
       opages == Range(Case.site.pages)
       oa == UNION {{<<pg, a>> : a \in Range(Case.site.nameanchors[pg])} : pg \in opages}
-      pa == UNION {{<<pg, a>> : a \in P.anchors[pg]} : pg \in P.files}
+      pa == UNION {{<<pg, a>> : a \in P.nameanchors[pg]} : pg \in P.files}
       os == {<<pg, S.subjects[pg]>> : pg \in DOMAIN S.subjects}
       ps == {<<pg, P.subjects[pg]>> : pg \in DOMAIN P.subjects}
   IN [files_missing |-> P.files \ opages, files_extra |-> opages \ P.files,
